@@ -80,6 +80,9 @@ ASSUMPTIONS = [
     "`assign(name=[v0, v1, ...])` gives element k to variant k, repeats the last element when the list is shorter than "
     "the number of variants and ignores surplus elements (has_variants / iterators.exhaust_then_last, named in the "
     "property's mechanism list); alter_num_variants(k) keeps the first k variants or appends copies of the last one",
+    "override_tolerance settings (values next to the default, so that no result changes) travel with copy, pickle, dill "
+    "and save/load and are private to each object; the portable form has no tolerance field, so objects derived through "
+    "it are compared on this only after an override_tolerance on them",
     "a model recreated from its portable form carries values but no first-order solution (the portable form has no "
     "solution field): solution, simulation and filter of such an object are compared only after a solve() on it",
     "JSON turns the documented (level, change) two-tuples of the portable form into lists, which from_portable reads as "
@@ -231,10 +234,13 @@ def _sim_case(draw):
 
     def random_op(target=None):
         kind = draw(st.sampled_from(["derive", "derive", "assign", "assign", "assign", "assign", "assign_std",
-                                     "solve", "solve", "solve", "solve", "steady", "steady", "alter", "alter"]))
+                                     "solve", "solve", "solve", "solve", "steady", "steady", "alter", "alter", "tolerance"]))
         t = draw(obj) if target is None else target
         if kind == "derive":
             return [[draw(st.sampled_from(DERIVE_KINDS)), t]]
+        if kind == "tolerance":
+            # values next to the default 1e-12: a setting that must travel with the object without changing any result
+            return [["tolerance", t, draw(st.sampled_from([1e-12, 5e-12, 1e-11])), draw(st.sampled_from([1e-12, 2e-12, 1e-11]))]]
         if kind == "assign":
             out = [assign_op(t)]
             if draw(st.booleans()):
@@ -308,6 +314,7 @@ class _Obj:
         self.variants = variants
         self.dead = False
         self.events = []          # (step, "assign"|"solve", snapshot of parameter values of all variants)
+        self.tolerance = {"eigenvalue": 1e-12, "equality": 1e-12}      # None: not known (the portable form does not carry it)
 
     def snapshot(self):
         return tuple(tuple(sorted(v.params.items())) for v in self.variants)
@@ -356,6 +363,8 @@ class _Harness:
             return {"op": "assign_std", "obj": i, "raw": vals, "per_variant": {n: _spread(v, nv) for n, v in vals.items()}}
         if name == "alter":
             return {"op": "alter", "obj": i, "k": int(op[2])}
+        if name == "tolerance":
+            return {"op": "tolerance", "obj": i, "values": {"eigenvalue": float(op[2]), "equality": float(op[3])}}
         return {"op": name, "obj": i}
 
     def commit(self, step, k):
@@ -377,6 +386,7 @@ class _Harness:
                 variants.append(w)
             new = _Obj(step["kind"], step["src"], k, variants)
             new.dead = src.dead
+            new.tolerance = None if portable else (None if src.tolerance is None else dict(src.tolerance))
             self.pool.append(new)
             self.labels.add("derive_" + step["kind"])
             if src.kind != "original":
@@ -408,6 +418,9 @@ class _Harness:
                 if self.linear:
                     v.changes_judged = True      # a direct linear solve: independent of the previous values
             self.labels.add("op_steady")
+        elif op == "tolerance":
+            o.tolerance = dict(step["values"])
+            self.labels.add("op_tolerance")
         elif op == "alter":
             kk = step["k"]
             if kk < len(o.variants):
@@ -783,6 +796,11 @@ def _check_sim(case):
             if not col.check(got_nv == nv, f"{tag}:num_variants", lambda: f"{where}: {got_nv} variants, expected {nv}"):
                 o.dead = True
                 continue
+            if o.tolerance is not None:
+                got_tol = api(f"{tag}:get_tolerance", lambda: dict(real[i].get_tolerance()))
+                if not col.check(got_tol == o.tolerance, f"{tag}:tolerance", lambda: f"{where}: tolerance {got_tol}, set (or inherited) {o.tolerance}"):
+                    o.dead = True
+                    continue
             want = [v.solved and v.changes_judged for v in o.variants]
             deep = last or i in touched
             n_before = len(col.items)
@@ -846,6 +864,9 @@ def _check_sim(case):
                 mine = {n: vals[vi] for n, vals in step["per_variant"].items()}
                 if mine:
                     sh.apply(("assign", mine))
+        elif step["op"] == "tolerance":
+            api(f"{o.kind}:override_tolerance", lambda: m.override_tolerance(**step["values"]))
+            h.commit(step, k)
         elif step["op"] == "alter":
             api(f"{o.kind}:alter_num_variants", m.alter_num_variants, step["k"])
             before = len(o.variants)
